@@ -233,6 +233,16 @@ def checks(ctx, rep):
                     if abs(z - want) > 1e-9 * max(1.0, abs(want)):
                         viol("lcb_formula", SITE_Q, f"acquisition value {z} != mean - sqrt(beta_t)*sd = {want} (t={e['fc'] + 1}, D={e['D']})")
                         break
+    # ---- the surrogate over the WHOLE RUN: event sequence replayed through GP.sstep (log snapshots given) and SurRun.jstep (log derived) ----
+    from . import gprun
+
+    def case_of(t):
+        c = {"kind": "gp_run", "spec": t["spec"]}
+        for key in ("gp_faults", "update_faults"):
+            if t.get(key):
+                c[key] = t[key]
+        return c
+    gprun.replay_runs(ctx, rep, [t for t in traces if t["constructed"]], stats, case_of, lambda t: runlevel.spec_tag(t["spec"]))
     res = ctx.driver.call_many(reqs)
     for (case, tag, X, Y, S, dist), m in zip(owners, res):
         mt = m["train"]
@@ -258,7 +268,9 @@ def run(ctx):
     rep.coverage = {
         "evaluations": stats["neigh"] + stats["gpadd"] + stats["acq"], "distinct_nontrivial": stats["neigh_truncated"] + stats["noise_sets"] + stats["gpadd"],
         "rule": "every get_grid_search_neighbors call (training-set selection incl. history re-evaluation), every add_and_update_gp call and every acq_fcn_lcb call of the traced runs; selection compared with GP.neighbors "
-                "on the same log snapshot and distances (udist output is oracle); clauses evaluated on the implementation's arrays; non-trivial = selections that dropped logged points + sets with a noise vector + posterior updates",
+                "on the same log snapshot and distances (udist output is oracle); clauses evaluated on the implementation's arrays; non-trivial = selections that dropped logged points + sets with a noise vector + posterior updates; "
+                "in addition the event sequence of every run (initial training, every local re-selection with its fit attempts, every posterior update) is replayed through the state machines GP.srun "
+                "(log snapshots given) and SurRun.jrun (evaluation log derived by the logger model from the run's target calls) and the training set compared after every event (stats seq_*/joint_*)",
         "samples": [{"see": "NEIGH/GPADD/ACQ events in harness/tracer.py"}], "traces_validated_against_impl": stats["runs"], "stats": stats,
     }
     rep.assumptions = ["distances (udist), GP predictions and sqrt(beta_t) are oracle values; beta_t is recomputed from the documented schedule with numpy"]
